@@ -175,6 +175,121 @@ Definition set_index (f : frag) (i : nat) : frag :=
 Record lstate := mkLS { ls_pos : Z; ls_cur : list Z; ls_cur_is_O : bool; ls_O : list Z; ls_np : option brk;
                         ls_newc : list frag; ls_mt : Z; ls_dbd : bool }.
 Inductive lout := LAbort (O : list Z) | LDone (broke : bool) (resume : option skip) (s : lstate).
+(* outcome of laying out one child inside the loop *)
+Inductive sout := SAbort (O : list Z) | SStop (resume : option skip) (s : lstate) | SCont (s : lstate).
+
+(* the recursive call on one child, as a function of (pos_y, mt, bottom_space, skip, page_is_empty, adj) *)
+Definition rec_t := Z -> Z -> Z -> option skip -> bool -> list Z -> lret.
+
+(* a LineBox child: _linebox_layout *)
+Definition lines_step (c : ctx) (st : style) (pb bb : Z) (pie : bool) (bottom_space : Z)
+           (ids : list Z) (index : nat) (sub : option skip) (s : lstate) : sout :=
+  let r := linebox_layout c st (ls_mt s) pb bb ids index pie (ls_cur s) bottom_space (ls_pos s) sub (ls_dbd s) in
+  let s' := mkLS (lr_y r) [] false (ls_O s) (ls_np s) (ls_newc s ++ lr_placed r) (lr_mt r)
+                 (ls_dbd s || match lr_resume r with None => true | _ => false end) in
+  if lr_abort r then SAbort (ls_O s)
+  else if lr_stop r then SStop (lr_resume r) s'
+  else SCont s'.
+
+(* a block child: _in_flow_layout *)
+Definition blk_step (c : ctx) (rec : rec_t) (child : box) (cst : style) (is_root pie : bool) (bottom_space : Z)
+           (index : nat) (sub : option skip) (s : lstate) : sout :=
+  let newc := ls_newc s in
+  let lastf := match newc with [] => None | _ => Some (last newc (FLine 0 0 0 None 0 0)) end in
+  let page_break := match lastf with
+                    | Some lf => fold_breaks (before_chain (Some lf) ++ after_chain_box child)
+                    | None => BAuto end in
+  if match lastf with Some _ => force page_break | None => false end then
+    SStop (Some (SChild index None))
+          (mkLS (ls_pos s) [] false (ls_O s) (Some page_break) newc (ls_mt s) (ls_dbd s))
+  else
+  let pie_nc := pie && Nat.eqb (length newc) 0 in
+  let cur := ls_cur s in
+  let '(res, cur_fin, out, same) := rec (ls_pos s) (child_mt c cst is_root pie_nc cur) bottom_space sub pie_nc cur in
+  let O1 := if ls_cur_is_O s then cur_fin else ls_O s in
+  let '(new_child, resume, np, position_y, O2, cur2, cur_is_O2) :=
+    match res with
+    | None => (None, None, None, ls_pos s, O1, cur_fin, ls_cur_is_O s)
+    | Some r =>
+        let '(cy, cmt, cmb, cpt, cpb, cbt, cbb, ch) := frag_geom (b_frag r) in
+        let content_bottom := cy + cmt + cbt + cpt + ch in
+        let border_bottom := cy + cmt + (ch + cpt + cpb + cbt + cbb) in
+        let can_break := negb pie_nc in
+        let lim := page_bottom c - bottom_space in
+        let '(nc, rs, np', py, O', out', same') :=
+          if b_ct r then (Some (b_frag r), b_resume r, b_np r, ls_pos s, O1, out, same)
+          else if can_break && overflows lim content_bottom then (None, b_resume r, b_np r, ls_pos s, O1, out, same)
+          else if can_break && overflows lim border_bottom then
+            let '(res2, cur_fin2, out2, same2) :=
+              rec (ls_pos s) (child_mt c cst is_root pie_nc cur_fin) (bottom_space + cpb + cbb) sub pie_nc cur_fin in
+            let O1' := if ls_cur_is_O s then cur_fin2 else O1 in
+            match res2 with
+            | Some r2 =>
+                let '(cy2, cmt2, _, cpt2, cpb2, cbt2, cbb2, ch2) := frag_geom (b_frag r2) in
+                (Some (b_frag r2), b_resume r2, b_np r2, cy2 + cmt2 + (ch2 + cpt2 + cpb2 + cbt2 + cbb2), O1', out2, same2)
+            | None => (None, None, None, ls_pos s, O1', out2, same2)
+            end
+          else (Some (b_frag r), b_resume r, b_np r, border_bottom, O1, out, same) in
+        let cur_is_O' := ls_cur_is_O s && same' in
+        let cur' := match nc with
+                    | Some f => out' ++ [let '(_, _, fmb, _, _, _, _, _) := frag_geom f in fmb]
+                    | None => out' end in
+        let O'' := if cur_is_O' then cur' else O' in
+        (nc, rs, np', py, O'', cur', cur_is_O')
+    end in
+  match new_child with
+  | None =>
+      let s_fail := mkLS position_y cur2 cur_is_O2 O2 np newc (ls_mt s) (ls_dbd s) in
+      let plain :=
+        match newc with
+        | [] => SAbort O2
+        | _ => SStop (Some (SChild index None)) s_fail
+        end in
+      if avoid page_break then
+        match find_earlier newc with
+        | Some (newc', res') => SStop (Some res') (mkLS position_y cur2 cur_is_O2 O2 np newc' (ls_mt s) (ls_dbd s))
+        | None => if negb pie then SAbort O2 else plain
+        end
+      else plain
+  | Some f =>
+      let s' := mkLS position_y cur2 cur_is_O2 O2 np (newc ++ [set_index f index]) (ls_mt s) (ls_dbd s) in
+      match resume with
+      | Some rs => SStop (Some (SChild index (Some rs))) s'
+      | None => SCont s'
+      end
+  end.
+
+(* what block_container_layout does after its loop over the children *)
+Definition finish_blk (c : ctx) (st : style) (is_root pie cwc : bool) (pos_y1 mt0 pt bt bottom_space : Z) (lo : lout) : lret :=
+  let mb := s_mb st in let pb := s_pb st in let bb := s_bb st in
+  let clone := s_clone st in
+  match lo with
+  | LAbort Ofin => (None, Ofin, [], false)
+  | LDone broke resume0 s =>
+      let resume := if broke then resume0 else None in
+      let fragmented := match resume with Some _ => true | None => false end in
+      let O := ls_O s in
+      let mt := ls_mt s in
+      if fragmented && avoid (s_bi st) && negb pie then (None, O, [], false) else
+      let cur := if broke then [] else ls_cur s in
+      let cur_is_O := if broke then false else ls_cur_is_O s in
+      let pos_y2 := if cwc then pos_y1 + collapse O - mt else pos_y1 in
+      let no_kids := Nat.eqb (length (ls_newc s)) 0 in
+      let ct := no_kids && (bt =? 0) && (pt =? 0) && (bb =? 0) && (pb =? 0) in
+      let position_y := if no_kids && negb ct then ls_pos s + collapse cur else ls_pos s in
+      let '(cur, cur_is_O) := if no_kids && negb ct then ([], false) else (cur, cur_is_O) in
+      let closeb := negb (bb =? 0) || negb (pb =? 0) || is_root in
+      let position_y := if closeb then position_y + collapse cur else position_y in
+      let '(cur, cur_is_O) := if closeb then ([], false) else (cur, cur_is_O) in
+      let cut := negb clone && fragmented in
+      let nmb := if cut then 0 else mb in let npb := if cut then 0 else pb in let nbb := if cut then 0 else bb in
+      let h0 := position_y - (pos_y2 + mt + bt + pt) in
+      let height :=
+        if negb fragmented then Z.max h0 0
+        else let nh := page_bottom c - bottom_space - pos_y2 - (mt + bt + pt + npb + nbb + nmb) in
+             if h0 <? nh then (if ls_dbd s then nh + pb + bb + mb else nh) else h0 in
+      (Some (mkB (FBlk st 0 pos_y2 mt nmb pt npb bt nbb height (ls_newc s)) resume (ls_np s) ct), O, cur, cur_is_O)
+  end.
 
 Fixpoint bcl (c : ctx) (b : box) (pos_y mt bottom_space : Z) (sk : option skip) (pie : bool) (adj : list Z) {struct b} : lret :=
   match b with
@@ -194,7 +309,8 @@ Fixpoint bcl (c : ctx) (b : box) (pos_y mt bottom_space : Z) (sk : option skip) 
       let pos_y1 := if cwc then pos_y else pos_y + collapse O0 - mt in
       let cur0 := if cwc then O0 else [] in
       let position_y0 := if cwc then pos_y else pos_y1 + mt + bt + pt in
-      let '(skn, sub0) := match sk with Some (SChild i s) => (i, s) | _ => (0%nat, None) end in
+      let skn := match sk with Some (SChild i _) => i | _ => 0%nat end in
+      let sub0 := match sk with Some (SChild _ s) => s | _ => None end in
       let loop :=
         fix loop (kids : list box) (index toskip : nat) (sub : option skip) (s : lstate) {struct kids} : lout :=
           match kids with
@@ -203,115 +319,18 @@ Fixpoint bcl (c : ctx) (b : box) (pos_y mt bottom_space : Z) (sk : option skip) 
               match toskip with
               | S n => loop rest (S index) n sub s
               | O =>
-                match child with
-                | Lines ids =>
-                    let r := linebox_layout c st (ls_mt s) pb bb ids index pie (ls_cur s) bottom_space (ls_pos s) sub (ls_dbd s) in
-                    let s' := mkLS (lr_y r) [] false (ls_O s) (ls_np s) (ls_newc s ++ lr_placed r) (lr_mt r)
-                                   (ls_dbd s || match lr_resume r with None => true | _ => false end) in
-                    if lr_abort r then LAbort (ls_O s)
-                    else if lr_stop r then LDone true (lr_resume r) s'
-                    else match rest with
-                         | [] => LDone false (lr_resume r) s'
-                         | _ => loop rest (S index) O None s'
-                         end
-                | Blk cst _ _ =>
-                    let newc := ls_newc s in
-                    let lastf := match newc with [] => None | _ => Some (last newc (FLine 0 0 0 None 0 0)) end in
-                    let page_break := match lastf with
-                                      | Some lf => fold_breaks (before_chain (Some lf) ++ after_chain_box child)
-                                      | None => BAuto end in
-                    if match lastf with Some _ => force page_break | None => false end then
-                      LDone true (Some (SChild index None))
-                            (mkLS (ls_pos s) [] false (ls_O s) (Some page_break) newc (ls_mt s) (ls_dbd s))
-                    else
-                    let pie_nc := pie && Nat.eqb (length newc) 0 in
-                    let cur := ls_cur s in
-                    let '(res, cur_fin, out, same) :=
-                      bcl c child (ls_pos s) (child_mt c cst is_root pie_nc cur) bottom_space sub pie_nc cur in
-                    let O1 := if ls_cur_is_O s then cur_fin else ls_O s in
-                    (* first pass outcome *)
-                    let '(new_child, resume, np, position_y, O2, cur2, cur_is_O2) :=
-                      match res with
-                      | None => (None, None, None, ls_pos s, O1, cur_fin, ls_cur_is_O s)
-                      | Some r =>
-                          let '(cy, cmt, cmb, cpt, cpb, cbt, cbb, ch) := frag_geom (b_frag r) in
-                          let content_bottom := cy + cmt + cbt + cpt + ch in
-                          let border_bottom := cy + cmt + (ch + cpt + cpb + cbt + cbb) in
-                          let can_break := negb pie_nc in
-                          let lim := page_bottom c - bottom_space in
-                          (* returns new_child, resume, np, position_y, O, out-list, same-flag *)
-                          let '(nc, rs, np', py, O', out', same') :=
-                            if b_ct r then (Some (b_frag r), b_resume r, b_np r, ls_pos s, O1, out, same)
-                            else if can_break && overflows lim content_bottom then (None, b_resume r, b_np r, ls_pos s, O1, out, same)
-                            else if can_break && overflows lim border_bottom then
-                              let '(res2, cur_fin2, out2, same2) :=
-                                bcl c child (ls_pos s) (child_mt c cst is_root pie_nc cur_fin) (bottom_space + cpb + cbb) sub pie_nc cur_fin in
-                              let O1' := if ls_cur_is_O s then cur_fin2 else O1 in
-                              match res2 with
-                              | Some r2 =>
-                                  let '(cy2, cmt2, _, cpt2, cpb2, cbt2, cbb2, ch2) := frag_geom (b_frag r2) in
-                                  (Some (b_frag r2), b_resume r2, b_np r2, cy2 + cmt2 + (ch2 + cpt2 + cpb2 + cbt2 + cbb2), O1', out2, same2)
-                              | None => (None, None, None, ls_pos s, O1', out2, same2)
-                              end
-                            else (Some (b_frag r), b_resume r, b_np r, border_bottom, O1, out, same) in
-                          let cur_is_O' := ls_cur_is_O s && same' in
-                          let cur' := match nc with
-                                      | Some f => out' ++ [let '(_, _, fmb, _, _, _, _, _) := frag_geom f in fmb]
-                                      | None => out' end in
-                          let O'' := if cur_is_O' then cur' else O' in
-                          (nc, rs, np', py, O'', cur', cur_is_O')
-                      end in
-                    match new_child with
-                    | None =>
-                        let s_fail := mkLS position_y cur2 cur_is_O2 O2 np newc (ls_mt s) (ls_dbd s) in
-                        let plain :=
-                          match newc with
-                          | [] => LAbort O2
-                          | _ => LDone true (Some (SChild index None)) s_fail
-                          end in
-                        if avoid page_break then
-                          match find_earlier newc with
-                          | Some (newc', res') => LDone true (Some res') (mkLS position_y cur2 cur_is_O2 O2 np newc' (ls_mt s) (ls_dbd s))
-                          | None => if negb pie then LAbort O2 else plain
-                          end
-                        else plain
-                    | Some f =>
-                        let s' := mkLS position_y cur2 cur_is_O2 O2 np (newc ++ [set_index f index]) (ls_mt s) (ls_dbd s) in
-                        match resume with
-                        | Some rs => LDone true (Some (SChild index (Some rs))) s'
-                        | None => loop rest (S index) O None s'
-                        end
-                    end
+                match (match child with
+                       | Lines ids => lines_step c st pb bb pie bottom_space ids index sub s
+                       | Blk cst _ _ => blk_step c (bcl c child) child cst is_root pie bottom_space index sub s
+                       end) with
+                | SAbort Ofin => LAbort Ofin
+                | SStop r s' => LDone true r s'
+                | SCont s' => loop rest (S index) O None s'
                 end
               end
           end in
-      match loop kids 0%nat skn sub0 (mkLS position_y0 cur0 cwc O0 None [] mt dbd0) with
-      | LAbort Ofin => (None, Ofin, [], false)
-      | LDone broke resume0 s =>
-          let resume := if broke then resume0 else None in
-          let fragmented := match resume with Some _ => true | None => false end in
-          let O := ls_O s in
-          let mt := ls_mt s in
-          if fragmented && avoid (s_bi st) && negb pie then (None, O, [], false) else
-          let cur := if broke then [] else ls_cur s in
-          let cur_is_O := if broke then false else ls_cur_is_O s in
-          let pos_y2 := if cwc then pos_y1 + collapse O - mt else pos_y1 in
-          let no_kids := Nat.eqb (length (ls_newc s)) 0 in
-          let ct := no_kids && (bt =? 0) && (pt =? 0) && (bb =? 0) && (pb =? 0) in
-          let position_y := if no_kids && negb ct then ls_pos s + collapse cur else ls_pos s in
-          let '(cur, cur_is_O) := if no_kids && negb ct then ([], false) else (cur, cur_is_O) in
-          let closeb := negb (bb =? 0) || negb (pb =? 0) || is_root in
-          let position_y := if closeb then position_y + collapse cur else position_y in
-          let '(cur, cur_is_O) := if closeb then ([], false) else (cur, cur_is_O) in
-          let cut := negb clone && fragmented in
-          let nmb := if cut then 0 else mb in let npb := if cut then 0 else pb in let nbb := if cut then 0 else bb in
-          let h0 := position_y - (pos_y2 + mt + bt + pt) in
-          let height :=
-            if negb fragmented then Z.max h0 0
-            else let nh := page_bottom c - bottom_space - pos_y2 - (mt + bt + pt + npb + nbb + nmb) in
-                 if h0 <? nh then (if ls_dbd s then nh + pb + bb + mb else nh) else h0 in
-          (Some (mkB (FBlk st 0 pos_y2 mt nmb pt npb bt nbb height (ls_newc s)) resume (ls_np s) ct), O, cur, cur_is_O)
-      end
+      finish_blk c st is_root pie cwc pos_y1 mt pt bt bottom_space
+                 (loop kids 0%nat skn sub0 (mkLS position_y0 cur0 cwc O0 None [] mt dbd0))
   end.
 
 (* ---------- page loop (remake_page / make_all_pages, without re-pagination) ---------- *)
